@@ -478,3 +478,65 @@ def run_intexpr(c, ctx, parse_text):
         if obs is None or isinstance(obs, bool) or int(obs) != exp or float(obs) != float(exp):
             devs.append(dev('int-expression:whole-exact-result-not-delivered(%s)' % form, dict(text=text, observed=repr(obs), expected=exp)))
     return outcome(classes=classes, nontrivial=True, fp='intexpr ' + text, dev=devs, monitors=mon, sample=dict(text=text, expected=exp, observed=repr(obs)))
+
+
+# ------------------------------------------------------------------------------------------------ inclusive comparisons on negative values
+# <= and >= are "equality tolerant" too (the docs define them through ==); the sign of the operands changes nothing:
+# -250 m <= -250 m, -5 >= -5, also across units and with the two sides 3e-7 apart.
+
+def gen_cmpneg(rng):
+    dim = rng.choice(list(UNITS))
+    (ua, fa), (ub, fb) = rng.choice([rng.sample(UNITS[dim], 2), [rng.choice(UNITS[dim])] * 2])
+    return dict(t='cmpneg', ua=ua, ub=ub, x=rng.choice([-250.0, -5.0, -0.02, -3000.0, -1.5, 40.0]), rel=rng.choice(['equal', 'equal', 'within-tolerance', 'smaller', 'larger']),
+                op=rng.choice(['<=', '>=']), form=rng.choice(['bool-node', 'literal-right', 'case', 'condition', 'negated']), dt=rng.choice(['float', 'float', 'int']))
+
+
+def run_cmpneg(c, ctx, parse_text):
+    F = dict(sum(UNITS.values(), []))
+    x = c['x']
+    k = {'equal': 1.0, 'within-tolerance': 1 + 3e-7, 'smaller': 1.2 if x < 0 else 0.8, 'larger': 0.8 if x < 0 else 1.2}[c['rel']]      # b relative to a (physically)
+    yb = x * k * F[c['ua']] / F[c['ub']]
+    if c['rel'] in ('smaller', 'larger') and min(abs(x), abs(yb)) * 0.2 < 1e-5:
+        # numpy.isclose adds an absolute 1e-8: clearly different operands must differ by more than that in either unit
+        return outcome(skip='difference too close to the absolute term of numpy.isclose')
+    dt = c['dt']
+    if dt == 'int' and not (float(x).is_integer() and float(yb).is_integer() and abs(yb) < 1e9):
+        dt = 'float'
+    num = (lambda z: '%d' % z) if dt == 'int' else (lambda z: repr(float(z)))
+    a_le_b = c['rel'] in ('equal', 'within-tolerance', 'larger')          # a <= b ?
+    a_ge_b = c['rel'] in ('equal', 'within-tolerance', 'smaller')
+    truth = a_le_b if c['op'] == '<=' else a_ge_b
+    L = ['a %s = %s %s' % (dt, num(x), c['ua']), 'b %s = %s %s' % (dt, num(yb), c['ub'])]
+    form = c['form']
+    cmp_nodes = '{?a} %s {?b}' % c['op']
+    exp = truth
+    must_fail = False
+    if form == 'bool-node':
+        L.append('t bool = ("%s")' % cmp_nodes)
+    elif form == 'literal-right':
+        L.append('t bool = ("{?a} %s %s %s")' % (c['op'], num(yb), c['ub']))
+    elif form == 'negated':
+        L.append('t bool = ("~({?a} %s {?b})")' % c['op']); exp = not truth
+    elif form == 'case':
+        L += ['@case ("%s")' % cmp_nodes, '  t bool = true', '@else', '  t bool = false', '@end']
+    else:
+        # the bound of a !condition: the node sits exactly on (or off) a negative bound
+        L = ['b %s = %s %s' % (dt, num(yb), c['ub']), 'a %s = %s %s' % (dt, num(x), c['ua']), '  !condition ("{?} %s {?b}")' % c['op'], 't bool = true']
+        must_fail = not truth
+        exp = True
+    text = '\n'.join(L) + '\n'
+    classes = ['inclusive-comparison', 'inclusive-comparison:' + ('negative' if x < 0 else 'positive'), 'inclusive-comparison:' + c['rel'], 'inclusive-comparison-form:' + form]
+    devs, mon = [], dict(inclusive_comparison_programs=1)
+    kind, res = parse_text(ctx, text)
+    obs = None
+    if must_fail:
+        if kind == 'ok':
+            devs.append(dev('inclusive-comparison:condition-false-but-accepted', dict(text=text)))
+    elif kind != 'ok':
+        devs.append(dev('inclusive-comparison:valid-program-rejected(%s)' % form, dict(text=text, exc=repr(res)[:160])))
+    else:
+        obs = res.data().get('t')
+        if obs is None or bool(obs) != exp:
+            devs.append(dev('inclusive-comparison:%s-operands-%s-compare-%s' % ('negative' if x < 0 else 'positive', c['rel'], 'false' if truth else 'true'),
+                            dict(text=text, expected=exp, observed=None if obs is None else bool(obs))))
+    return outcome(classes=classes, nontrivial=True, fp='cmpneg ' + text, dev=devs, monitors=mon, sample=dict(text=text, expected='rejected' if must_fail else exp, observed=None if obs is None else bool(obs)))
